@@ -428,6 +428,14 @@ def check_object_case(case):
                 if not len(m.genes):
                     return None, "no-genes"
                 res = m.genes[case["i"] % len(m.genes)].copy()
+            elif kind == "add_zero":
+                res = r1 + 0                   # the neutral start value of sum(): still a new, detached reaction
+            elif kind == "radd_zero":
+                res = 0 + r1
+            elif kind == "sum_one":
+                res = sum([r1])
+            elif kind == "sum_two":
+                res = sum([r1, r2])
             elif kind == "add":
                 res = r1 + r2
             elif kind == "sub":
@@ -449,8 +457,10 @@ def check_object_case(case):
         # value of the result
         if isinstance(res, Reaction):
             want = {x.id: c for x, c in r1.metabolites.items()}
-            if kind in ("add", "sub"):
-                sgn = 1 if kind == "add" else -1
+            if res is r1 or res is r2:
+                fails.append(f"the result of {kind} is one of its operands, not a new object")
+            if kind in ("add", "sub", "sum_two"):
+                sgn = -1 if kind == "sub" else 1
                 for x, c in r2.metabolites.items():
                     want[x.id] = want.get(x.id, 0) + sgn * c
                 want = {k: v for k, v in want.items() if v != 0}
@@ -530,7 +540,7 @@ def gen_model_case(rng):
 def gen_object_case(rng):
     return {"kind": "object", "spec": coreops.gen_model_spec(rng), "spec2": coreops.gen_model_spec(rng), "seed": rng.randint(0, 10 ** 9),
             "i": rng.randint(0, 9), "j": rng.randint(0, 9), "foreign": rng.random() < 0.3, "factor": rng.choice([2, -1, 0.5, 3]),
-            "op": rng.choice(["rcopy", "mcopy", "gcopy", "add", "add", "sub", "sub", "mul"])}
+            "op": rng.choice(["rcopy", "mcopy", "gcopy", "add", "add", "sub", "sub", "mul", "add_zero", "radd_zero", "sum_one", "sum_two"])}
 
 
 def check_case(case):
